@@ -66,6 +66,15 @@ def run(prog: Program, res: Result, tier: str) -> None:
         else:
             res.bad("R1", f, c, f"{f.qualname} opens a file directly: the new file starts at byte 0, so header bytes would be read as data; "
                     f"only the constructor and _seek2hdr may call _open", key=key)
+    # the base constructor opens file 0 at byte 0 - inside its header: a reader must leave its own constructor positioned at the first sample (F51)
+    ini = prog.func(FIO, "FileReader.__init__")
+    nfi = normal_form(ini)
+    sup = [e for e in nfi.effects if e.kind == "expr" and e.text().startswith("super().__init__(")]
+    pos0 = nfi.calls("self._seek2hdr")
+    okp = len(pos0) == 1 and pos0[0].text() == canon("self._seek2hdr(0)") and not pos0[0].ctx and bool(sup) and all(nfi.before(e, pos0[0]) for e in sup)
+    (res.ok if okp else res.bad)("R1", ini, ini.node, "a new reader is positioned at the first sample (_seek2hdr(0) after the files are opened)" if okp else
+                                 "FileReader.__init__ leaves the stream where the base constructor opened it, at byte 0 of file 0: a first read without an absolute "
+                                 "seek returns header bytes and the reported stream position is -hdrlen", construct="__init__", key="init:positioned")
     s2 = prog.func(FIO, "FileReader._seek2hdr")
     nf2 = normal_form(s2)
     opens = nf2.calls("self._open")
@@ -291,7 +300,7 @@ def run(prog: Program, res: Result, tier: str) -> None:
             raise AnalysisError(f"{qual} cannot be compared with its reference definition: {why[0]}")
         (res.ok if verdict == "same" else res.bad)("R6", fn, fn.node, (what if verdict == "same" else f"{qual} differs from its definition: " + ("; ".join(why))[:500]),
                                                    construct=qual, key=f"{name}:definition")
-    res.floor("R1", 8)
+    res.floor("R1", 9)
     res.floor("R2", 3)
     res.floor("R3", 5)
     res.floor("R4", 3)   # fileid, cumsum, and one in-file seek (two when the first file is a separate branch)
@@ -303,6 +312,8 @@ def run(prog: Program, res: Result, tier: str) -> None:
 F = "sigpyproc/io/fileio.py"
 R = "sigpyproc/readers.py"
 MUTANTS = [
+    {"id": "c02-revert-F51", "file": F, "expect": "C02.R1",
+     "old": "        # The stream begins at the first sample, not at the header of file 0\n        self._seek2hdr(0)\n", "new": ""},
     {"id": "c02-search-loop-le", "file": F, "expect": "C02.R4", "old": '        fileid = np.where(offset < self.sinfo.cumsum_datalens)[0][0]\n        self._seek2hdr(fileid)\n\n        if fileid == 0:\n            self.file_obj.seek(offset, os.SEEK_CUR)\n        else:\n            file_offset = offset - self.sinfo.cumsum_datalens[fileid - 1]\n            self.file_obj.seek(file_offset, os.SEEK_CUR)\n', "new": '        import itertools\n        data_ends = self.sinfo.cumsum_datalens\n        data_starts = itertools.chain([0], data_ends[:-1])\n        for fileid, (data_start, data_end) in enumerate(zip(data_starts, data_ends, strict=True)):\n            if offset <= data_end:\n                break\n        self._seek2hdr(fileid)\n        self.file_obj.seek(offset - data_start, os.SEEK_CUR)\n'},
     {"id": "c02-search-loop-from-end", "file": F, "expect": "C02.R4", "old": '        fileid = np.where(offset < self.sinfo.cumsum_datalens)[0][0]\n        self._seek2hdr(fileid)\n\n        if fileid == 0:\n            self.file_obj.seek(offset, os.SEEK_CUR)\n        else:\n            file_offset = offset - self.sinfo.cumsum_datalens[fileid - 1]\n            self.file_obj.seek(file_offset, os.SEEK_CUR)\n', "new": '        import itertools\n        data_ends = self.sinfo.cumsum_datalens\n        data_starts = itertools.chain([0], data_ends[:-1])\n        for fileid, (data_start, data_end) in enumerate(zip(data_starts, data_ends, strict=True)):\n            if offset < data_end:\n                break\n        self._seek2hdr(fileid)\n        self.file_obj.seek(offset - data_end, os.SEEK_CUR)\n'},
     {"id": "c02-open-direct-in-cread", "file": F, "expect": "C02.R1",
